@@ -445,7 +445,36 @@ func (e *smEngine) rangeLoopSpec(l *ast.RangeStmt) *LoopSpec {
 	}
 	entry := map[types.Object]string{}
 	var si *sufInfo
+	var body func(c *Ctx, before, after *State, idx string)
+	if e.o.content && e.closure == "marshal" {
+		idxHolder := ""
+		elemOf := func(st *State) (Val, Val, bool) {
+			switch v := c.eval(l.X, st).(type) {
+			case ListV:
+				if v.PermOf != nil {
+					k := c.listElem(st, v, idxHolder)
+					return k, c.mapLookup(st, *v.PermOf, k, false)[0], true
+				}
+				return nil, c.listElem(st, v, idxHolder), true
+			case MapV:
+				var k Val
+				if s, ok := c.sortOf(v.KeyT); ok {
+					k = Scalar{"(select " + v.Keys + " " + idxHolder + ")", s}
+				} else {
+					k = c.valueOfID(st, "(select "+v.Keys+" "+idxHolder+")", v.KeyT)
+				}
+				return k, c.mapLookup(st, v, k, false)[0], true
+			}
+			return nil, nil, false
+		}
+		inner := e.iterationContent("range", elemOf, c.pos(l.Pos()))
+		body = func(c *Ctx, before, after *State, idx string) {
+			idxHolder = idx
+			inner(c, before, after, idx)
+		}
+	}
 	return &LoopSpec{
+		BodyObl: body,
 		AxFn: func(c *Ctx, st *State, idx string) {
 			if si != nil {
 				e.unfold(si, idx)
@@ -506,7 +535,27 @@ func (e *smEngine) reverseLoopSpec(l *ast.ForStmt) *LoopSpec {
 	entry := map[types.Object]string{}
 	var si *sufInfo
 	ivObj := c.info.Defs[iv]
+	var body func(c *Ctx, before, after *State, idx string)
+	if e.o.content && e.closure == "marshal" {
+		elemOf := func(st *State) (Val, Val, bool) {
+			k, ok := st.env[ivObj].(Scalar)
+			if !ok {
+				return nil, nil, false
+			}
+			switch v := c.eval(collExpr, st).(type) {
+			case ListV:
+				if v.PermOf != nil {
+					key := c.listElem(st, v, k.T)
+					return key, c.mapLookup(st, *v.PermOf, key, false)[0], true
+				}
+				return nil, c.listElem(st, v, k.T), true
+			}
+			return nil, nil, false
+		}
+		body = e.iterationContent("reverse", elemOf, c.pos(l.Pos()))
+	}
 	return &LoopSpec{
+		BodyObl: body,
 		InvFn: func(c *Ctx, st *State, _ string) string {
 			if si == nil {
 				si = e.sufFor(st, c.eval(collExpr, st))
@@ -552,6 +601,7 @@ type smOpts struct {
 	frame   bool                         // C07/C11: no store to the message; provenance of the result
 	opts    bool                         // C05/C14: nested calls use the options derived from input
 	unknown bool                         // C14: the unknown-field block (position and content)
+	content bool                         // C02: byte content of every write event against the wire-format spec; block order
 	keep    func(name, kind string) bool // optional filter on the obligations/grounds a property keeps
 }
 
@@ -673,6 +723,12 @@ func sizeMarshalUnit(prog *Program, ms *MsgSchema, closure string, o smOpts) (u 
 			rg := c.newRegion(st, "enc")
 			er := c.freshRaw("merr", "Int")
 			c.assume("(>= " + er + " 0)")
+			if o.content {
+				// callee contract (the property itself, by induction): the returned bytes are Enc(m)
+				c.declareFun("EncMsg", "(Int Int) (_ BitVec 8)")
+				arr := st.heap[rg]
+				c.assume(fmt.Sprintf("(forall ((k Int)) (! (=> (and (<= 0 k) (< k %s)) (= (select %s k) (EncMsg %s k))) :pattern ((select %s k))))", sz, arr, p.Ref, arr))
+			}
 			return []Val{SliceV{Region: rg, Off: "0", Len: sz, Cap: sz, Nil: "false", Prov: "callee"}, ErrV{er}}, true
 		case "sort.Slice", "sort.Strings":
 			// in-place sort: same length, still an enumeration of the same keys (trusted: sort yields a sorted permutation)
@@ -808,6 +864,9 @@ func sizeMarshalUnit(prog *Program, ms *MsgSchema, closure string, o smOpts) (u 
 			u.Grounds = append(u.Grounds, Ground{Name: u.Name + "/unknownFields/counted", OK: pos >= 0, Text: "size has a block for the unknown fields"})
 		}
 	}
+	if o.content && closure == "marshal" {
+		e.legacyOrderGround(u, groups)
+	}
 	for gi := range groups {
 		g := &groups[gi]
 		name := strings.Join(g.fields, "+")
@@ -815,6 +874,9 @@ func sizeMarshalUnit(prog *Program, ms *MsgSchema, closure string, o smOpts) (u 
 			c.content = true
 		} else if o.unknown {
 			c.content = false
+		}
+		if o.content && closure == "marshal" {
+			c.content = true
 		}
 		covered = append(covered, g.fields...)
 		spec := "0"
@@ -854,6 +916,14 @@ func sizeMarshalUnit(prog *Program, ms *MsgSchema, closure string, o smOpts) (u 
 			// the block's precondition is part of its path condition (so every obligation of the block sees it)
 			gst := c.withGuard(base, and(pre, vr.extra))
 			gst.env[e.accObj] = Scalar{a0, c.idx()}
+			if closure == "marshal" {
+				// what earlier blocks wrote is irrelevant to this block: start from an arbitrary buffer content
+				if d, ok := envByName(gst, "dAtA", lit.End()); ok {
+					if dv := d.(SliceV); dv.Region != "" {
+						gst.heap[dv.Region] = c.freshRaw("dAtA_at_block", c.byteArrSort())
+					}
+				}
+			}
 			e.cur, e.a0 = g, a0
 			save := c.unit
 			c.unit = u.Name + "/" + vr.tag + name
@@ -883,6 +953,10 @@ func sizeMarshalUnit(prog *Program, ms *MsgSchema, closure string, o smOpts) (u 
 					text = "i' == i - FieldSize_" + name + "(x): the block writes exactly the bytes size counted"
 				}
 				c.addObl(Obl{Name: fmt.Sprintf("%s/%s%s/cut", u.Name, vr.tag, name), Kind: "cut", Guard: vend.guard, Goal: goal, Pos: c.pos(g.stmts[0].Pos()), Text: text})
+				if o.content && closure == "marshal" && vr.tag == "" {
+					e.singularContent(u, base, vend, g, a1.T, fs, c.pos(g.stmts[0].Pos()))
+					e.packedHeader(u, base, vend, g, a1.T, c.pos(g.stmts[0].Pos()))
+				}
 				if o.unknown && name == "unknownFields" && closure == "marshal" {
 					if d, ok := envByName(vend, "dAtA", lit.End()); ok {
 						dv := d.(SliceV)
